@@ -230,6 +230,23 @@ func tryReplay(w *World, verifDir, prop string, o *Obligation, path string) bool
 	}
 	fn := w.Funcs[o.Fn]
 	safetyKind := map[string]bool{"index": true, "slice": true, "nil": true, "div": true, "panic": true, "assert-type": true, "makeslice": true}[o.Kind]
+	if fn == nil && len(o.Inputs) > 0 && o.Status == "refuted" {
+		// a lemma: the witness of the refutation (values of its universally quantified variables)
+		if pairs := parseValues(o.Model); len(pairs) == len(o.Inputs) {
+			var wit []concreteInput
+			for i, in := range o.Inputs {
+				v := pairValue(pairs[i])
+				var raw interface{} = v
+				if n, ok := smtInt(v); ok {
+					raw = n
+				} else if len(v) >= 2 && v[0] == '"' {
+					raw = smtUnquote(v)
+				}
+				wit = append(wit, concreteInput{in.Name, string(in.T.Sort), raw})
+			}
+			rec["input"] = wit
+		}
+	}
 	if fn == nil || len(o.Inputs) == 0 {
 		rec["replay"] = "no generic adapter for this function's inputs"
 		save()
@@ -413,4 +430,25 @@ func netnsOK() bool {
 		netnsAvail = exec.Command("unshare", "-n", "sh", "-c", "ip link set lo up").Run() == nil
 	}
 	return netnsAvail
+}
+
+// smtUnquote turns an SMT-LIB string literal into the Go string it denotes ("" is an escaped quote, \u{..} a code point).
+func smtUnquote(v string) string {
+	v = v[1 : len(v)-1]
+	v = strings.ReplaceAll(v, `""`, `"`)
+	var sb strings.Builder
+	for i := 0; i < len(v); i++ {
+		if strings.HasPrefix(v[i:], `\u{`) {
+			if j := strings.Index(v[i:], "}"); j > 0 {
+				var cp int
+				if _, err := fmt.Sscanf(v[i+3:i+j], "%x", &cp); err == nil {
+					sb.WriteRune(rune(cp))
+					i += j
+					continue
+				}
+			}
+		}
+		sb.WriteByte(v[i])
+	}
+	return sb.String()
 }
